@@ -23,8 +23,9 @@ func (*vConn) Close() error                { return nil }
 
 type sessGhost struct{ conn *vConn }
 type strmGhost struct {
-	in   chan uint32
-	peer *yamux.Stream
+	in      chan uint32
+	peer    *yamux.Stream
+	aborted bool // opened by the peer and dropped before the ID was written
 }
 
 var sessG = map[*yamux.Session]*sessGhost{}
@@ -66,7 +67,21 @@ func mAcceptStream(s *yamux.Session) (*yamux.Stream, error) { return <-sessG[s].
 //verif:model (*github.com/hashicorp/yamux.Stream).Close
 func mStreamClose(s *yamux.Stream) error { return nil }
 
-func vStreamReadU32(r io.Reader) (uint32, error) { return <-strmG[r.(*yamux.Stream)].in, nil }
+func vStreamReadU32(r io.Reader) (uint32, error) {
+	g := strmG[r.(*yamux.Stream)]
+	if g.aborted {
+		return 0, io.ErrUnexpectedEOF
+	}
+	return <-g.in, nil
+}
+
+// openAborted: the peer of s sees a new stream that ends before its ID arrives
+func openAborted(s *yamux.Session) {
+	near, far := new(yamux.Stream), new(yamux.Stream)
+	strmG[near] = &strmGhost{in: make(chan uint32, 4), peer: far}
+	strmG[far] = &strmGhost{in: make(chan uint32, 4), peer: near, aborted: true}
+	sessG[s].conn.peer.acceptQ <- far
+}
 func vStreamWriteU32(w io.Writer, v uint32) error {
 	strmG[strmG[w.(*yamux.Stream)].peer].in <- v
 	return nil
@@ -217,6 +232,17 @@ func harnessC06afterTimeout() {
 	vAssert(e0 != nil, "C09: an Accept nobody dials returns an error")
 	vCover("timed-out")
 
+	if vChoice(2) == 1 {
+		// an abandoned dial: one end opened a stream and dropped it before writing the ID (MuxBroker.Dial does this when
+		// its write fails); the other end's dispatcher discards that stream and carries on
+		vCover("abandoned-dial")
+		if vChoice(2) == 1 {
+			openAborted(client.broker.session)
+		} else {
+			openAborted(sb.session)
+		}
+		vSleepUntil(vNow() + sec)
+	}
 	// afterwards: a Dispense and a raw pair on another ID, in either direction, accept or dial first
 	r2, e2 := client.Dispense("test")
 	vAssert(e2 == nil, "C06: Dispense succeeds after an unrelated Accept timed out")
